@@ -4,11 +4,13 @@
    every error of the scanning phase of a project (scanner + directive layer + INCLUDE, any include
    tree) is located in the file being scanned at that moment or on the keyword of the pending
    directive, and each error of JApiCore.next sits at the first byte of the lexeme being processed,
-   on the pending directive, or at the byte before the cursor (Proofs/CoreErrLoc.v); that every error of a build points into its file with
+   on the pending directive, or at the byte before the cursor (Proofs/CoreErrLoc.v); every error of
+   the catalog builder's passes over the expanded forest sits on a directive of that forest, with
+   that directive's include trace, or at the start of its body (Proofs/BuildErrLoc.v); that every error of a build points into its file with
    the right trace is REFUTED twice on the current tree (findings F11, F13) and otherwise
    checked by correspondence and by an independent recomputation on the implementation. *)
 From JS Require Import Base Bytes Scanner ScanRun Core Entry C07Proofs.
-From JS Require ErrInFile ScannerProg CoreErrLoc.
+From JS Require ErrInFile ScannerProg CoreErrLoc BuildErrLoc Catalog BanBuild.
 Open Scope Z_scope.
 
 Theorem C07_line_and_column :
@@ -49,6 +51,21 @@ Theorem C07_directive_layer_errors_sit_on_the_lexeme_or_the_pending_directive :
     (e_file e = cs_file st /\ e_index e = c_cur (cs_conf st) - 1 /\ e_trace e = []).
 Proof. exact CoreErrLoc.core_next_error_place. Qed.
 
+(* the catalog builder of the model, for every forest, catalog state, ban list, body text and fuel:
+   every error of collectTags, the TYPE passes, collectPaths, the missed-path pass, JSIGHT-first and
+   addDirectives is located ON A DIRECTIVE OF THE FOREST - file, index and include trace are those
+   of its keyword as recorded when it was scanned - or at the first byte of that directive's body
+   (Description text errors); the errors of validateCatalog sit on directives stored in the
+   catalog and are the third alternative *)
+Theorem C07_builder_errors_sit_on_a_directive_of_the_forest :
+  forall read_body banned fuel forest e,
+    Catalog.build_catalog read_body banned fuel forest = CErr e ->
+    (exists x, BanBuild.within_forest x forest /\
+               (e = dir_error x (e_msg e) \/
+                exists b, d_body x = Some b /\ e_file e = co_file b /\ e_index e = co_begin b /\ e_trace e = d_trace x)) \/
+    (exists c0 c, Catalog.add_all read_body banned fuel c0 forest = COk c /\ Catalog.validate c = Some e).
+Proof. exact BuildErrLoc.build_errors_are_located_on_a_directive_of_the_forest. Qed.
+
 Theorem C07_refuted_end_of_file_errors :
   match err_loc (tree_case [(rn, FFile f11_doc)] rn [] [] 1000) with
   | Some l => (rl_index l =? Z.of_nat (List.length f11_doc)) && (rl_line l =? 0) && (rl_col l =? 0)
@@ -67,3 +84,4 @@ Print Assumptions C07_refuted_end_of_file_errors.
 Print Assumptions C07_refuted_tracer_cache.
 Print Assumptions C07_scan_phase_errors_are_located.
 Print Assumptions C07_directive_layer_errors_sit_on_the_lexeme_or_the_pending_directive.
+Print Assumptions C07_builder_errors_sit_on_a_directive_of_the_forest.
